@@ -125,6 +125,6 @@ theorem LogicModel.ofFragModel {m : Model (Ext K)} {d : List (DomVar (Ext K))} (
       (fun ρ => by obtain ⟨a, _, ha, _⟩ := (h.cons c hc).defined ρ; exact ⟨a, ha⟩)
     have gr := GoodE.ofFG (d := d) (h.cons c hc).rhs
       (fun ρ => by obtain ⟨_, b, _, hb⟩ := (h.cons c hc).defined ρ; exact ⟨b, hb⟩)
-    ⟨gl.toS, gr.toS, VerdictDef.ofDefOn gl.defd gr.defd⟩⟩
+    ⟨gl.toS, gr.toS⟩⟩
 
 end Rooc.LinP
